@@ -481,7 +481,7 @@ class Harness:
         self.soft = getattr(self, 'soft', set())
         for line in list(self.lines):
             m = re.match(r'pub fn (\w+)(<[^(]*>)(\(.*?\)(?: -> .*?)?) \{ (.*) \}$', line)
-            if not m or m.group(2) != bound:
+            if not m or (bound is not None and m.group(2) != bound) or (bound is None and not re.match(r'^<S(: [\w +:]+)?>$', m.group(2))):
                 continue
             name = m.group(1)
             if only is not None and not re.search(only, name):
